@@ -7,6 +7,7 @@ import (
 	"os"
 	"path/filepath"
 	"sort"
+	"sync"
 	"testing"
 	"time"
 
@@ -76,8 +77,12 @@ func genCase(t *rapid.T) Case {
 			op = Op{Op: "delete", N: rapid.SampledFrom(ids).Draw(t, "delN")}
 		case r < 82:
 			op = Op{Op: "gc"}
-		case r < 85:
+		case r < 84:
 			op = Op{Op: "save"}
+		case r < 86:
+			op = Op{Op: "straydir", N: i}
+		case r < 89:
+			op = Op{Op: "burst", N: rapid.SampledFrom(ids).Draw(t, "burstN"), Last: fmt.Sprint(rapid.IntRange(2, 12).Draw(t, "burstK"))}
 		case r < 96:
 			op = Op{Op: "reopen", Fmt: rapid.SampledFrom([]string{"ustar", "pax", "gnu"}).Draw(t, "fmt"), Last: rapid.SampledFrom(lasts).Draw(t, "last")}
 		default:
@@ -248,7 +253,9 @@ func runCase(c Case) (res vt.Result, fail *vt.Fail) {
 		return nil
 	}
 
-	for i, op := range c.Ops {
+	ops := append([]Op(nil), c.Ops...)
+	for i := 0; i < len(ops); i++ {
+		op := ops[i]
 		when := fmt.Sprintf("at step %d (%s n=%d ref=%q)", i, op.Op, op.N, op.Ref)
 		switch op.Op {
 		case "push":
@@ -333,9 +340,13 @@ func runCase(c Case) (res vt.Result, fail *vt.Fail) {
 				vt.Infra("%s: GC did not return (see C09)", when)
 			}
 			if gerr != nil {
-				classes["stopped-at-gc-error"] = true
-				res.Classes = keys(classes)
-				return res, nil
+				// a GC that fails part-way (here: an unremovable entry under blobs/)
+				// is still an operation after which the layout must reopen to what
+				// the live store reports
+				classes["gc-failed-part-way"] = true
+				// no fault-free history continues from a half-finished GC: compare
+				// live and reopened state right now and end the case
+				ops = append(ops[:i+1], Op{Op: "reopen", Fmt: "pax"})
 			}
 			classes["gc"] = true
 			dirty = true
@@ -348,6 +359,38 @@ func runCase(c Case) (res vt.Result, fail *vt.Fail) {
 					delete(stored, id)
 				}
 			}
+		case "straydir":
+			// a non-empty directory whose name looks like a digest: GC cannot remove it
+			p := filepath.Join(dir, "blobs", "sha256", fmt.Sprintf("%064x", op.N+1))
+			if err := os.MkdirAll(filepath.Join(p, "x"), 0o755); err != nil {
+				return res, vt.Failf("harness/straydir", "%v", err)
+			}
+			classes["unremovable-stray"] = true
+		case "burst":
+			if !stored[op.N] {
+				continue
+			}
+			// several Tag calls at once
+			k := 2
+			fmt.Sscan(op.Last, &k)
+			var wg sync.WaitGroup
+			errs := make([]error, k)
+			for g := 0; g < k; g++ {
+				wg.Add(1)
+				go func(g int) {
+					defer wg.Done()
+					errs[g] = s.Tag(ctx, d.Nodes[op.N].Desc, fmt.Sprintf("burst-%d-%d", i, g))
+				}(g)
+			}
+			wg.Wait()
+			for g, err := range errs {
+				if err != nil {
+					return res, vt.Failf("C08/tag-failed", "%s: concurrent Tag %d: %v", when, g, err)
+				}
+				tags[fmt.Sprintf("burst-%d-%d", i, g)] = op.N
+			}
+			classes["concurrent-tag-burst"] = true
+			dirty = true
 		case "save":
 			if err := s.SaveIndex(); err != nil {
 				return res, vt.Failf("C08/saveindex-failed", "%s: %v", when, err)
@@ -378,7 +421,7 @@ func runCase(c Case) (res vt.Result, fail *vt.Fail) {
 				classes["continue-on-reopened-store"] = true
 				continue
 			}
-			if i < len(c.Ops)-1 {
+			if i < len(ops)-1 {
 				midReopen = true
 			}
 			fsv, err := oci.NewFromFS(ctx, os.DirFS(dir))
